@@ -22,6 +22,8 @@ class R:
         if u == "test.ids()": return ("TESTIDS", "testids")
         if u == "self.patience": return ("pat", "q")
         if u in ("np.nan",): return ("none", "oq")
+        if u == "self.discount": return ("disc", "disc")
+        if u == "test.field(self.gain, 'pandas', index='ids')": return ("T", "series")
         if isinstance(e, ast.Constant) and isinstance(e.value, (int, float)) and float(e.value) == int(e.value): return (f"({int(e.value)} : Q)", "qlit")
         if isinstance(e, ast.Call):
             f = U(e.func)
@@ -38,6 +40,26 @@ class R:
             if f == "np.nonzero" and len(e.args) == 1:
                 a = self.ex(e.args[0], env)
                 if a[1] == "bools": return (f"(trueIdx {a[0]})", "idx")
+            if f == "array_dcg" and len(e.args) == 2 and U(e.args[1]) == "self.discount":
+                a0 = e.args[0]
+                if isinstance(a0, ast.Call) and U(a0.func) == "np.require" and len(a0.args) == 2 and U(a0.args[1]) == "np.float32": a0 = a0.args[0]
+                if isinstance(a0, ast.Attribute) and a0.attr == "values":
+                    sv = self.ex(a0.value, env)
+                    if sv[1] == "series": return (f"(LK.Metric.arrayDcg disc (seriesValues {sv[0]}))", "q")
+                a = self.ex(a0, env)
+                if a[1] == "qs": return (f"(LK.Metric.arrayDcg disc {a[0]})", "q")
+            if f == "fixed_dcg" and len(e.args) == 2 and U(e.args[1]) == "self.discount":
+                n = self.ex(e.args[0], env)
+                if n[1] == "nat": return (f"(LK.Metric.fixedDcg disc {n[0]})", "q")
+            if f == "np.zeros_like" and len(e.args) == 1:
+                a = self.ex(e.args[0], env)
+                if a[1] == "ids": return (f"(zerosLike {a[0]})", "qs")
+            if isinstance(e.func, ast.Attribute) and e.func.attr == "nlargest" and not e.args and [(k.arg, U(k.value)) for k in e.keywords] == [("n", "self.k")] and "__k" in env:
+                sv = self.ex(e.func.value, env)
+                if sv[1] == "series": return (f"(seriesNLargest {env['__k'][0]} {sv[0]})", "series")
+            if isinstance(e.func, ast.Attribute) and e.func.attr == "sort_values" and not e.args and [(k.arg, U(k.value)) for k in e.keywords] == [("ascending", "False")]:
+                sv = self.ex(e.func.value, env)
+                if sv[1] == "series": return (f"(seriesSortDesc {sv[0]})", "series")
             if f == "np.power" and len(e.args) == 2 and isinstance(e.args[1], ast.Call) and U(e.args[1].func) == "np.arange" and len(e.args[1].args) == 1:
                 b, n = self.ex(e.args[0], env), self.ex(e.args[1].args[0], env)
                 if b[1] == "q" and n[1] == "nat": return (f"(powers {b[0]} {n[0]})", "qs")
@@ -50,6 +72,10 @@ class R:
             if isinstance(e.func, ast.Attribute) and e.func.attr == "sum" and not e.args:
                 a = self.ex(e.func.value, env)
                 if a[1] == "bools": return (f"(LK.Metric.countTrue {a[0]})", "nat")
+        if isinstance(e, ast.Attribute) and e.attr == "values" and isinstance(e.value, ast.Call) and isinstance(e.value.func, ast.Attribute) and e.value.func.attr == "reindex" \
+                and len(e.value.args) == 1 and [(k.arg, U(k.value)) for k in e.value.keywords] == [("fill_value", "0")]:
+            sv, it = self.ex(e.value.func.value, env), self.ex(e.value.args[0], env)
+            if sv[1] == "series" and it[1] == "ids": return (f"(reindex0 {sv[0]} {it[0]})", "qs")
         if isinstance(e, ast.Subscript):
             b = self.ex(e.value, env)
             if b[1] == "idx" and U(e.slice) == "0": return (f"(({b[0]}).headD 0)", "nat")
@@ -93,9 +119,29 @@ class R:
                 if v[1] == "testids": raise Unsupported("test ids bound to a name")
                 nm = t.id if t.id != "max" else "max_"
                 return f"{pad}let {nm} := {v[0]}\n" + self.block(rest, {**env, t.id: (nm, "q" if v[1] == "qlit" else v[1])}, ind)
+            # scores[mask] = c
+            if isinstance(t, ast.Subscript) and isinstance(t.value, ast.Name) and env.get(t.value.id, ("", ""))[1] == "qs":
+                m, c = self.ex(t.slice, env), self.ex(s.value, env)
+                if m[1] == "bools" and c[1] in ("q", "qlit"):
+                    x = t.value.id
+                    return f"{pad}let {x} := maskAssign {env[x][0]} {m[0]} {c[0]}\n" + self.block(rest, {**env, x: (x, "qs")}, ind)
             raise Unsupported(f"line {s.lineno}: {U(s)[:80]}")
         if isinstance(s, ast.If):
             u = U(s.test)
+            if u == "self.gain":
+                return f"{pad}if gainGiven then\n" + self.block(list(s.body) + rest, env, ind + 1) + f"\n{pad}else\n" + self.block(list(s.orelse) + rest, env, ind + 1)
+            if u.endswith(" is None") and len(s.body) == 1 and isinstance(s.body[0], ast.Raise) and not s.orelse and env.get(u[:-8], ("", ""))[1] == "series":
+                self.notes = getattr(self, "notes", []) + [f"line {s.lineno}: `{u}` → raise: the test items are assumed to carry the gain field"]
+                return self.block(rest, env, ind)
+            if u == "self.k":
+                th = self.block(list(s.body) + rest, {**env, "__k": ("kk", "nat")}, ind + 3)
+                el = self.block(list(s.orelse) + rest, env, ind + 3)
+                el2 = self.block(list(s.orelse) + rest, env, ind + 2)
+                return f"{pad}match k with\n{pad}  | some kk =>\n{pad}    if kk ≠ 0 then\n{th}\n{pad}    else\n{el}\n{pad}  | none =>\n{el2}"
+            if u.startswith("self.k and self.k < ") and len(s.body) == 1 and U(s.body[0]).endswith("= self.k") and not s.orelse:
+                x = U(s.body[0]).split(" = ")[0]
+                if env.get(x, ("", ""))[1] == "nat" and u == f"self.k and self.k < {x}":
+                    return (f"{pad}let {x} := (match k with | some kk => if kk ≠ 0 ∧ kk < {env[x][0]} then kk else {env[x][0]} | none => {env[x][0]})\n" + self.block(rest, {**env, x: (x, "nat")}, ind))
             # the cut-off on the number of relevant items
             if u.startswith("self.k is not None and self.k < ") and len(s.body) == 1 and U(s.body[0]).endswith("= self.k") and not s.orelse:
                 x = U(s.body[0]).split(" = ")[0]
@@ -113,7 +159,8 @@ class R:
         raise Unsupported(f"line {s.lineno}: {U(s)[:80]}")
 
 SITES = [("_hit.py", "Hit", "hitT", ""), ("_pr.py", "Precision", "precisionT", ""), ("_pr.py", "Recall", "recallT", ""),
-         ("_recip.py", "RecipRank", "recipRankT", ""), ("_rbp.py", "RBP", "rbpT", " (pat : Q) (normalize : Bool)")]
+         ("_recip.py", "RecipRank", "recipRankT", ""), ("_rbp.py", "RBP", "rbpT", " (pat : Q) (normalize : Bool)"),
+         ("_dcg.py", "NDCG", "ndcgT", " (disc : Nat → Q) (gainGiven : Bool)")]
 
 def generate(src_root):
     parts = []; notes = []
@@ -122,9 +169,9 @@ def generate(src_root):
         c = next((x for x in mod.body if isinstance(x, ast.ClassDef) and x.name == cls), None)
         if c is None: raise Unsupported(f"{cls} not found")
         fn = [m for m in c.body if isinstance(m, ast.FunctionDef) and m.name == "measure_list"][-1]
-        body = R().block(fn.body, {"recs": ("L", "ids")}, 1)
+        r_ = R(); body = r_.block(fn.body, {"recs": ("L", "ids")}, 1)
         parts.append(f"def {nm} (k : Option Nat){extra} (L : List Nat) (T : List (Nat × Q)) : Option Q :=\n{body}\n")
-        notes.append(f"* `{nm}` ← {rel} {cls}.measure_list, source sha256/64 {hashlib.sha256(ast.get_source_segment(src, fn).encode()).hexdigest()[:16]}")
+        notes.append(f"* `{nm}` ← {rel} {cls}.measure_list, source sha256/64 {hashlib.sha256(ast.get_source_segment(src, fn).encode()).hexdigest()[:16]}" + "".join(f"\n    - {x}" for x in getattr(r_, "notes", [])))
     return ("import LK.Model.RankOps\n/-! GENERATED by translate/py2lean_rank.py on every run of `./check C06`; do not edit.\n" + "\n".join(notes)
             + "\n-/\nset_option linter.unusedVariables false\nnamespace LK.Gen.RankC06\nopen LK.RankOps LK.Metric\n\n" + "\n".join(parts) + "\nend LK.Gen.RankC06\n")
 
